@@ -93,6 +93,26 @@ CHECKS = {
              "wsfrac = wscut ties not replayed; pipeline-model membership in traces only for <= 5 classes (the clauses always).",
         technique="TLA+ pipeline model + declarative clauses, TLC refinement check, stubbed replay and trace validation",
         ref="§4 C03", engine="tlc"),
+    "C05": dict(
+        text="Session.tla models an object as abstract contents plus a concrete representation (dimension order, layout, dtype width, "
+             "start and orientation of the stored direction sequence); representation actions change the representation only and the "
+             "observation of a call is a function of the contents (invariant ResultIsFunctionOfContents, frame property). TLC enumerates "
+             "every program of representation actions up to a length bound; each program x each of ~45 statistics / transforms / "
+             "rule-based and watershed partitions is replayed on the real library and the labelled projection of the result is compared "
+             "with the canonical representation (watershed methods exempt from the orientation clause, as the property states).",
+        note="Trusted: TLC, xarray/numpy for building representations; integer-valued energies so that dtype casts keep the contents. "
+             "Three defects found by this check were repaired (dd from stored order, smooth_spec labels, non-contiguous arrays to C).",
+        technique="TLA+ session model (contents vs representation) + TLC program enumeration + replay by label",
+        ref="§4 C05", engine="tlc"),
+    "C06": dict(
+        text="Dataset.tla defines every operation pointwise over the positions of a dataset; TLC enumerates shapes (0-3 non-spectral "
+             "dimensions incl. part, lat/lon, site) x all fillings from three spectra x all single-position edits and checks "
+             "BatchEqualsSingle and Isolation. Scenarios are replayed for every operation except hmax-with-time: the batched result at "
+             "each position against the spectrum extracted into its own buffer with its own wind/depth, bit-identical results away from "
+             "an edited position, Dataset accessor vs efth accessor; layouts with the spectral dims stored first and float32 included.",
+        note="Trusted: TLC; extraction copies the spectrum into a fresh contiguous buffer (a view would share the defect under test).",
+        technique="TLA+ pointwise dataset model + TLC scenario enumeration + differential replay",
+        ref="§4 C06", engine="tlc"),
 }
 
 NOT_YET = "check not yet built in this round (see DESIGN.md §4 for the planned TLA+ model); not claimed"
